@@ -136,7 +136,7 @@ def shrink_insts(g, insts, fails):
 def main(tier, seed):
     res = Result(PID, tier, seed)
     try:
-        translate.run_all()
+        translate.run_all(PID)
     except translate.AnchorLost as e:
         res.violation("translator lost its anchor: %s" % e, {"theorem_or_correspondence": "tools/translate.py"}, found_input=False)
     pr = coq_prove(PID)
